@@ -202,11 +202,18 @@ def apply_point(src, point):
 
 
 def sh(cmd, env=None, cwd=None, timeout=900):
+    # own session, so that a timeout takes the whole process tree with it (a check stuck in a mutant's endless loop)
+    p = subprocess.Popen(cmd, shell=True, stdout=subprocess.PIPE, stderr=subprocess.STDOUT, text=True, env=env, cwd=cwd,
+                         start_new_session=True)
     try:
-        r = subprocess.run(cmd, shell=True, stdout=subprocess.PIPE, stderr=subprocess.STDOUT, text=True, env=env, cwd=cwd,
-                           timeout=timeout)
-        return r.returncode, r.stdout
+        out, _ = p.communicate(timeout=timeout)
+        return p.returncode, out
     except subprocess.TimeoutExpired:
+        try:
+            os.killpg(p.pid, 9)
+        except OSError:
+            pass
+        p.wait()
         return 124, "timeout"
 
 
